@@ -4,10 +4,13 @@ Require Import RV.Model.CmdOwnership.
 Import ListNotations.
 
 Lemma goes_again_not_in_flight k e : goes_again k e = true -> leaves_in_flight (outcome_of e) = false.
-Proof. destruct e as [o|o]; destruct o; cbn; intros H; try reflexivity; try discriminate. Qed.
+Proof. destruct k; destruct e as [o|o]; destruct o; cbn; intros H; try reflexivity; try discriminate. Qed.
 
 Lemma recyclable_not_in_flight o : recyclable_result o = true -> leaves_in_flight o = false.
 Proof. destruct o; cbn; intros H; try reflexivity; discriminate. Qed.
+
+Lemma recycles_recyclable k o : recycles k o = true -> recyclable_result o = true.
+Proof. destruct k, o; cbn; intros H; try reflexivity; discriminate. Qed.
 
 Lemma life_aux_no_early k pinned : forall evs tr,
   run_life_aux k pinned evs = Some tr -> forall last, no_early_recycle_aux false last tr = true.
@@ -18,8 +21,9 @@ Proof.
     inversion H; subst. cbn [no_early_recycle_aux].
     rewrite (goes_again_not_in_flight _ _ Eg). cbn [orb]. now apply IH.
   - destruct evs as [|e2 evs2]; [|discriminate].
-    destruct (recyclable_result (outcome_of e)) eqn:Erec; cbn [andb] in H.
-    + destruct pinned; cbn [negb] in H; inversion H; subst; cbn [no_early_recycle_aux];
+    destruct (recycles k (outcome_of e)) eqn:Erec0; cbn [andb] in H.
+    + pose proof (recycles_recyclable _ _ Erec0) as Erec.
+      destruct pinned; cbn [negb] in H; inversion H; subst; cbn [no_early_recycle_aux];
         rewrite ?(recyclable_not_in_flight _ Erec); cbn; rewrite ?Erec; reflexivity.
     + inversion H; subst. cbn. reflexivity.
 Qed.
@@ -45,13 +49,13 @@ Proof.
   - destruct (run_life_aux k pinned evs) as [tr'|] eqn:Er; [|discriminate].
     inversion H; subst. cbn. now apply IH.
   - destruct evs; [|discriminate].
-    destruct (recyclable_result (outcome_of e) && negb pinned); inversion H; subst; cbn; lia.
+    destruct (recycles k (outcome_of e) && negb pinned); inversion H; subst; cbn; lia.
 Qed.
 
 (** recycled exactly when the final attempt produced a recyclable result and the command is not pinned *)
 Theorem recycled_iff k pinned : forall evs tr,
   run_life k pinned evs = Some tr ->
-  recycled tr = match last evs (EvAttempt OutAbandoned) with e => recyclable_result (outcome_of e) && negb pinned end.
+  recycled tr = match last evs (EvAttempt OutAbandoned) with e => recycles k (outcome_of e) && negb pinned end.
 Proof.
   unfold run_life. induction evs as [|e evs IH]; intros tr H; cbn [run_life_aux] in H; [discriminate|].
   destruct (goes_again k e) eqn:Eg.
@@ -59,5 +63,5 @@ Proof.
     inversion H; subst. cbn [recycled existsb orb]. fold (recycled tr').
     destruct evs as [|e2 evs2]; [discriminate|]. rewrite (IH tr' eq_refl). reflexivity.
   - destruct evs; [|discriminate]. cbn [last].
-    destruct (recyclable_result (outcome_of e) && negb pinned); inversion H; subst; reflexivity.
+    destruct (recycles k (outcome_of e) && negb pinned); inversion H; subst; reflexivity.
 Qed.
